@@ -3,8 +3,11 @@ use std::num::NonZeroU8;
 use crate::{Error, KeyName};
 
 pub fn validate<K: KeyName + ?Sized>(s: &str) -> Result<NonZeroU8, Error> {
-    let colon_idx =
-        NonZeroU8::new(s.find(':').ok_or(Error::MissingColon)? as u8).ok_or(Error::MissingColon)?;
+    let colon_idx = s.find(':').ok_or(Error::MissingColon)?;
+    // The index must not be truncated when it doesn't fit in a `u8`, otherwise the key name is
+    // looked for in the wrong place.
+    let colon_idx = u8::try_from(colon_idx).map_err(|_| Error::MaximumLengthExceeded)?;
+    let colon_idx = NonZeroU8::new(colon_idx).ok_or(Error::MissingColon)?;
 
     K::validate(&s[colon_idx.get() as usize + 1..])?;
 
